@@ -116,7 +116,7 @@ class Activate:
             if len(t[2]) == 2 and self.is_degree(t[2][0]) and path_of(strip(t[2][1])) == "self.threshold":
                 return "op(d,t)"
             return None
-        if isinstance(e, ast.Name) and t[0] in ("list", "phi", "call") and e.id in self.heap_names:
+        if self.heap_names and (t == ("list", ()) or t == ("call", ("global", "list"), (), ())):
             return "heap"
         return None
 
@@ -139,7 +139,7 @@ class Activate:
         fixed = {r: float(r.split(":")[1]) for r in roles if r.startswith("const:")}
         rows = 0
         bad: list[dict] = []
-        nondet = False
+        nondet: set[str] = set()
         all_targets = {n for ns in targets.values() for n in ns}
         import itertools
 
@@ -147,11 +147,13 @@ class Activate:
             for order in weak_orders(roles, fixed) if roles else [{}]:
                 env: dict[str, Any] = dict(order)
                 env.update(dict(zip(bools, bvals)))
-                visited, det = simulate(self.cfg, start, ev, env, all_targets, outside)
-                nondet = nondet or not det
+                may, must = simulate(self.cfg, start, ev, env, all_targets, outside)
                 rows += 1
                 for name, nodes in targets.items():
-                    got = any(n in visited for n in nodes)
+                    got = any(n in must for n in nodes)
+                    if got != any(n in may for n in nodes):
+                        nondet.add(name)
+                        continue
                     want = bool(spec[name](env))
                     if got != want and len(bad) < 5:
                         bad.append({"target": name, "executed": got, "specified": want,
@@ -159,8 +161,8 @@ class Activate:
         construct = self.construct(rule_id)
         if nondet:
             atoms = sorted(set(ev.unknown_atoms))[:5]
-            self.check.violation("G", construct, f"{what}: the selection consults something other than the "
-                                 f"specification's quantities: {atoms}", loc(self.fn, head),
+            self.check.violation("G", construct, f"{what}: whether {sorted(nondet)} executes depends on something other "
+                                 f"than the specification's quantities: {atoms}", loc(self.fn, head),
                                  {"unknown_atoms": atoms})
             return
         self.check.require(not bad, "G", construct,
@@ -473,10 +475,10 @@ def assert_is_not_vector(check: Check) -> None:
         if n.kind == "test":
             roles += [rl for rl in sorted(ev.roles_in(n.ast, n)) if rl.startswith("const:") and rl not in roles]  # type: ignore[arg-type]
     for order in weak_orders(roles, {rl: float(rl.split(":")[1]) for rl in roles if rl.startswith("const:")}):
-        visited, det = simulate(cfg, first, ev, dict(order), set(raises), set())
-        nondet |= not det
+        may, must = simulate(cfg, first, ev, dict(order), set(raises), set())
+        nondet |= may != must
         rows += 1
-        if bool(visited) != (order["size"] > order["const:1.0"]):
+        if bool(must) != (order["size"] > order["const:1.0"]):
             bad.append(describe_order(order, roles, []))
     check.require(bool(raises) and not bad and not nondet, "O-vec", "Activation.assert_is_not_vector/guard",
                   "raises iff the size of the degree exceeds 1" if not bad and not nondet else
